@@ -230,6 +230,23 @@ def gen(rng, tier):
             out.append(dict(kind='atv', sdate=sd, stime=st, tstep=T, flags=fl if rng.random() < 0.5 else None, n=nt,
                             pre=rng.random() < 0.4))
     out += _irregular_cases(rng)
+    # on every run: hourly flags given to from_arrays without a start or a step, over midnight, a leap day and a year end
+    for y, j, h in ((2019, 365, 23), (2020, 366, 22), (2020, 59, 23), (2021, 120, 5)):
+        t0 = dt.datetime(y, 1, 1) + dt.timedelta(days=j - 1, hours=h)
+        fl = [[int((t0 + dt.timedelta(hours=i)).strftime('%Y%j')), int((t0 + dt.timedelta(hours=i)).strftime('%H%M%S'))]
+              for i in range(rng.randint(2, 4))]
+        out.append(dict(kind='fa', flags=fl))
+    # on every run: flags with a gap (two days that are no neighbours stacked along TSTEP, a thinned file that kept TSTEP)
+    for gapdays in (3, 40):
+        sd, st, T, fl = _flags(rng, 2)
+        T = rng.choice([10000, 30000])
+        t0 = dt.datetime(sd // 1000, 1, 1) + dt.timedelta(days=sd % 1000 - 1, hours=st // 10000)
+        fl = []
+        for day in (0, gapdays):
+            for i in range(2):
+                t = t0 + dt.timedelta(days=day, seconds=_tsecs(T) * i)
+                fl.append([int(t.strftime('%Y%j')), int(t.strftime('%H%M%S'))])
+        out.append(dict(kind='tflag', flags=fl, bounds=True, tstep=T))
     # on every run: a file described by its header only whose steps span more than 2**31 seconds (monthly means over 76 years)
     out.append(dict(kind='atv', sdate=rng.choice([1950001, 1990001]), stime=0, tstep=7440000, flags=None, n=rng.randint(850, 900), pre=False))
     # on every run: a flag file thinned with a stride whose multiple of the step is no HHMMSS multiple of it (30 min x 4 is
@@ -329,6 +346,16 @@ def impl(case):
                 res['copy_times'] = _times_out(g.copy().getTimes())
                 res['subset_times'] = _times_out(g.subsetVariables(['A']).getTimes())
                 return res
+            if k == 'fa':
+                # hourly flags handed to from_arrays, neither start nor step named: the start is the first flag, the step the
+                # default of one hour
+                from PseudoNetCDF.cmaqfiles import ioapi_base
+                fl = np.array(case['flags'], dtype='i')
+                tf = fl[:, None, :].repeat(1, 1)
+                f = ioapi_base.from_arrays(TFLAG=tf, A=np.zeros((len(fl), 1, 1, 1), dtype='f'))
+                res = dict(times=_times_out(f.getTimes(bounds=True)), tstep=int(f.TSTEP))
+                res['copy_times'] = _times_out(f.copy().getTimes())
+                return res
             if k == 'cf':
                 return _impl_cf(case)
             if k == 'atv':
@@ -387,7 +414,8 @@ def _impl_cf(case):
     tsu = [t.astimezone(dt.timezone.utc) if t.tzinfo is not None else t for t in ts]
     try:
         # the optional numpy output: the same instants (numpy datetimes are UTC)
-        t64 = f.getTimes(bounds=case['bnd'] != 'none', datetype='datetime64[us]')
+        # (the first option given by position when no bounds are asked for: getTimes('datetime64[us]'))
+        t64 = f.getTimes('datetime64[us]') if case['bnd'] == 'none' else f.getTimes(bounds=True, datetype='datetime64[us]')
         res['dt64'] = [int(x) for x in np.asarray(t64).astype('datetime64[us]').astype('int64').tolist()]
         res['dt64_want'] = [int((_inst(t) - _inst(dt.datetime(1970, 1, 1))) * 1000000) for t in ts]
     except Exception as e:
@@ -474,7 +502,7 @@ def to_line(case, res):
             vals = vals + [lib.show_rat(Fraction(vals[-1]) + step)]
             bnd = 'none'
         return 'c12 cf %s %s %s %s %s' % (case['unit'], cal, ','.join(map(str, ref)), lib.show_list(vals), bnd)
-    if k in ('tau', 'strided'):
+    if k in ('tau', 'strided', 'fa'):
         return 'c12 attrs 1970001 0 10000 1 0'       # no model question (plain hour arithmetic): judged by the oracle
     if k == 'atv':
         if case['flags']:
@@ -486,7 +514,7 @@ def to_line(case, res):
 def agree(case, out, res):
     toks = out.split(' ')
     k = case['kind']
-    if k in ('tau', 'strided'):
+    if k in ('tau', 'strided', 'fa'):
         return None
     if 'err' in res:
         if k == 'cf' and res.get('ref') is None:
@@ -563,6 +591,16 @@ def oracle(case, res):
         if k == 'tflag' and case['bounds'] and case.get('tstep') is None and len(case['flags']) < 2:
             return None     # no interval can be derived from a single flag
         return 'raised %s %s' % (res['err'], res.get('msg'))
+    if k == 'fa':
+        want = [_true_instant(d, t) for d, t in case['flags']]
+        got = [Fraction(x) for x in res['times']]
+        if got != want + [want[-1] + 3600]:
+            return 'from_arrays(TFLAG=hourly flags): times and closing edge %s (TSTEP %s), the flags and one hour give %s' % (
+                [str(x - want[0]) for x in got], res.get('tstep'), [str(x - want[0]) for x in want + [want[-1] + 3600]])
+        if [Fraction(x) for x in res['copy_times']] != want:
+            return 'from_arrays(TFLAG=hourly flags) then copy: times %s, the flags encode %s' % (
+                [str(Fraction(x) - want[0]) for x in res['copy_times']], [str(x - want[0]) for x in want])
+        return None
     if k == 'strided':
         step = _tsecs(case['tstep']) * case['stride']
         t0 = _true_instant(case['sdate'], case['stime'])
@@ -602,6 +640,12 @@ def oracle(case, res):
             if len(lo) != len(exp) or any(abs(a - b) > Fraction(1, 1000) for a, b in zip(lo, exp)):
                 return 'coordutil.gettimebnds starts the cells at %s, the flags encode %s' % (
                     [str(x) for x in lo[:3]], [str(x) for x in exp[:3]])
+            if case.get('tstep') is not None and case['tstep'] >= 0:
+                # every cell lasts one TSTEP, whatever lies between it and the next flag (a gap between two stacked days)
+                hi = [Fraction(row[1]) for row in res['bnds']]
+                if any(abs(b - (a + _tsecs(case['tstep']))) > Fraction(1, 1000) for a, b in zip(exp, hi)):
+                    return 'coordutil.gettimebnds ends the cells at %s, the flags plus TSTEP (%d) give %s' % (
+                        [str(x) for x in hi[:4]], case['tstep'], [str(a + _tsecs(case['tstep'])) for a in exp[:4]])
         if case.get('edit') and 'times2' in res:
             fl2 = [list(x) for x in case['flags']]
             for j, dt_ in case['edit']:
